@@ -14,7 +14,8 @@ def gen(i, R, tier):
     rng = stream(R, "world")
     sw = stream(R, "swarm")
     swarm = {"set_policy": sw.choice(("mixed", "insertion")),
-             "walk_policy": sw.choice(("shuffled", "shuffled", "reversed", "sorted")), "mode": "deep_tree"}
+             "walk_policy": sw.choice(("shuffled", "shuffled", "reversed", "sorted")),
+        "dot_root": sw.random() < 0.12, "mode": "deep_tree"}
     placed = {}
     n = rng.randint(4, 24)
     for _ in range(n):
